@@ -27,6 +27,9 @@ Init == l = 1 /\ regs = <<>> /\ reps = <<>> /\ bad = <<>>
 Reset == /\ Rec[l].ev = "Reset"
          /\ regs' = <<>> /\ reps' = <<>> /\ UNCHANGED bad
 
+\* None is the answer only for an overflow: not when the result and (for sub) the negated operand are representable
+CheckedMustSucceed(rs, op) == /\ Representable(Result(rs, op))
+                              /\ op.op = "sub" => Representable(VNeg(rs[op.j]))
 OpEvent ==
     /\ Rec[l].ev = "Op"
     /\ LET e == Rec[l]
@@ -38,8 +41,13 @@ OpEvent ==
                           ELSE bad     \* overflow of the code's integers: unconstrained
            ELSE LET obs == ValOf(e.res.entries)
                 IN  /\ regs' = Append(regs, obs) /\ reps' = Append(reps, RepOf(e.res))
-                    /\ bad' = IF ~Representable(exp) \/ obs = exp THEN bad
-                              ELSE Flag("value", [op |-> e.op.op])
+                    /\ bad' = IF ~Representable(exp) THEN bad
+                              ELSE IF obs # exp THEN Flag("value", [op |-> e.op.op])
+                              \* the checked variant of the operation (the one the reducer folds with) yields the same value
+                              ELSE IF e.res.checked.k = "panic" THEN Flag("checked-panic", [op |-> e.op.op])
+                              ELSE IF e.res.checked.k = "some" /\ ValOf(e.res.checked.entries) # exp THEN Flag("checked-value", [op |-> e.op.op])
+                              ELSE IF e.res.checked.k = "none" /\ CheckedMustSucceed(regs, e.op) THEN Flag("checked-none", [op |-> e.op.op])
+                              ELSE bad
 
 ObsMismatch(e, exp) ==
     LET o == e.res
